@@ -7,7 +7,9 @@
 (*             record handed to the importers, C07), msgs (bytes), msgs2   *)
 (*             (same case captured again), other (the peer's messages),    *)
 (*             from (first message that is mutated; earlier ones were      *)
-(*             already covered by another case of the same parrot)]        *)
+(*             already covered by another case of the same parrot),        *)
+(*             inner (per message: the plaintext Certificate message the   *)
+(*             server compressed into it, else <<>>)]                      *)
 (*   docs:    [name, kind (json|map), doc (tagged JSON tree)]              *)
 (*   hellos:  [name, hs (ClientHello bytes)]  -> tlsfingerprint.io maps    *)
 (*   opt:     [classes, inserts, docclasses]  (what this tier enumerates)  *)
@@ -38,6 +40,9 @@ TreeAt(c, k) == TreeOf(Flights[c], Flights[c].msgs[k])
 
 Enabled(cls) == \E j \in DOMAIN Opt.classes : Opt.classes[j] = cls
 \* every (node, operator) of message k of flight c, then the unexpected-message insertions
+NodeMutsAll(b, N) ==
+  Flat([j \in DOMAIN N |-> LET ms == SelectSeq(NodeMuts(b, N, N[j]), LAMBDA m : Enabled(m.cls))
+                           IN [i \in DOMAIN ms |-> [n |-> j, m |-> ms[i]]]])
 MutsAt(c, k, N) ==
   LET b == Flights[c].msgs[k]
       per == [j \in DOMAIN N |-> LET ms == SelectSeq(NodeMuts(b, N, N[j]), LAMBDA m : Enabled(m.cls))
@@ -49,13 +54,13 @@ MutsAt(c, k, N) ==
   IN Flat(per) \o ins
 
 \* bytes that carry structure (length fields, type codes): the layout of a message
-Skel(c, k, N) ==
-  LET b == Flights[c].msgs[k]
-      PL == UNION { (IF N[j].ln > 0 THEN N[j].lp .. (N[j].lp + N[j].ln - 1) ELSE {}) : j \in DOMAIN N }
+SkelOf(b, N, case, k) ==
+  LET PL == UNION { (IF N[j].ln > 0 THEN N[j].lp .. (N[j].lp + N[j].ln - 1) ELSE {}) : j \in DOMAIN N }
       PT == UNION { (IF N[j].tn > 0 THEN N[j].tp .. (N[j].tp + N[j].tn - 1) ELSE {}) : j \in DOMAIN N }
       pos == SetToSeq1(PL \cup PT)
-  IN [case |-> Flights[c].case, k |-> k - 1, len |-> Len(b), pos |-> pos, val |-> [j \in DOMAIN pos |-> b[pos[j]]],
+  IN [case |-> case, k |-> k - 1, len |-> Len(b), pos |-> pos, val |-> [j \in DOMAIN pos |-> b[pos[j]]],
       typ |-> [j \in DOMAIN pos |-> IF pos[j] \in PL THEN 0 ELSE 1]]
+Skel(c, k, N) == SkelOf(Flights[c].msgs[k], N, Flights[c].case, k)
 
 \* how the harness must deliver the mutation.  The first ClientHello of a parrot differs from connection to
 \* connection (GREASE, shuffling), so the CAPTURED hello is sent in place of the live one ("replace"); every
@@ -109,15 +114,28 @@ ScnSet(cc, kk, s) ==
   IN { [kind |-> "mut", case |-> f.case, side |-> f.side, msg |-> kk - 1, st |-> s, mkind |-> mk,
         path |-> IF ms[i].m.cls = "insert" THEN "hs" ELSE N[ms[i].n].p, op |-> ms[i].m.op, cls |-> ms[i].m.cls, sp |-> ms[i].m.sp,
         mode |-> md, measure |-> GrowsDeclaredLength(ms[i].m) \/ DeclaresHuge(ms[i].m), decl |-> N[ms[i].n].decl,
-        extw |-> ExtW(f, b, N, N[ms[i].n], ms[i].m)] : i \in DOMAIN ms }
+        extw |-> ExtW(f, b, N, N[ms[i].n], ms[i].m), inner |-> FALSE] : i \in DOMAIN ms }
+\* the Certificate message INSIDE a CompressedCertificate: the same operators on its own tree; the server role
+\* (harness) then compresses the mutated message correctly, so the client gets past decompression
+HasInner(cc, kk) == kk <= Len(Flights[cc].inner) /\ Flights[cc].inner[kk] # <<>> /\ kk >= Flights[cc].from
+InnerTree(cc, kk) == Tree(Flights[cc].inner[kk], TRUE, FALSE)
+InnerScnSet(cc, kk, s) ==
+  IF ~HasInner(cc, kk) THEN {} ELSE
+  LET f  == Flights[cc]
+      b  == f.inner[kk]
+      N  == InnerTree(cc, kk).nodes
+      ms == NodeMutsAll(b, N)
+  IN { [kind |-> "mut", case |-> f.case, side |-> f.side, msg |-> kk - 1, st |-> s, mkind |-> "compressed_certificate",
+        path |-> "inner:" \o N[ms[i].n].p, op |-> ms[i].m.op, cls |-> ms[i].m.cls, sp |-> ms[i].m.sp,
+        mode |-> "live", measure |-> GrowsDeclaredLength(ms[i].m), decl |-> FALSE, extw |-> NoExtW, inner |-> TRUE] : i \in DOMAIN ms }
 Mutate == /\ IsFlight /\ scn = None /\ k <= Len(F0.msgs)
-          /\ scn' \in ScnSet(c, k, st)
+          /\ scn' \in (ScnSet(c, k, st) \cup InnerScnSet(c, k, st))
           /\ UNCHANGED <<c, k, st, out>>
 
 \* nothing is rewritten: the untouched flight (must succeed; also the allocation baseline)
 Baseline == /\ IsFlight /\ scn = None /\ k = Len(F0.msgs) + 1
             /\ scn' = [kind |-> "base", case |-> F0.case, side |-> F0.side, msg |-> 0 - 1, st |-> st, mkind |-> "", path |-> "", op |-> "none",
-                       cls |-> "none", sp |-> <<>>, mode |-> "live", measure |-> TRUE, decl |-> FALSE, extw |-> NoExtW]
+                       cls |-> "none", sp |-> <<>>, mode |-> "live", measure |-> TRUE, decl |-> FALSE, extw |-> NoExtW, inner |-> FALSE]
             /\ UNCHANGED <<c, k, st, out>>
 
 \* structured documents: one tree position, one operator
@@ -149,11 +167,16 @@ GrammarCovers == (IsFlight /\ scn = None /\ k <= Len(F0.msgs)) => TreeAt(c, k).f
 \* the layout of live-spliced messages does not change from connection to connection
 LayoutStable == (IsFlight /\ scn = None /\ k <= Len(F0.msgs) /\ ModeOf(F0, k) = "live" /\ F0.msgs[k][1] # 1)
                   => Stable(c, k, TreeAt(c, k).nodes)
+InnerGrammarCovers == (IsFlight /\ scn = None /\ k <= Len(F0.msgs) /\ HasInner(c, k)) => InnerTree(c, k).full
 OutcomeOK == out \in {"pending"} \cup Outcomes
 
 \* ---------------------------------------------------------------- emission
 Emit == /\ (scn # None /\ out = "pending") => PrintT(<<"SCN", ToJson(scn)>>)
         /\ (IsFlight /\ scn = None /\ k <= Len(F0.msgs)) =>
               LET N == TreeAt(c, k).nodes IN
-              PrintT(<<"POS", ToJson([case |-> F0.case, msg |-> k - 1, st |-> st, nodes |-> Len(N), mutable |-> Mutable(c, k, N), covered |-> k < F0.from, skel |-> Skel(c, k, N)])>>)
+              PrintT(<<"POS", ToJson([case |-> F0.case, msg |-> k - 1, st |-> st, nodes |-> Len(N), mutable |-> Mutable(c, k, N), covered |-> k < F0.from, inner |-> FALSE, skel |-> Skel(c, k, N)])>>)
+        /\ (IsFlight /\ scn = None /\ k <= Len(F0.msgs) /\ HasInner(c, k)) =>
+              LET N == InnerTree(c, k).nodes IN
+              PrintT(<<"POS", ToJson([case |-> F0.case, msg |-> k - 1, st |-> st, nodes |-> Len(N), mutable |-> TRUE, covered |-> FALSE, inner |-> TRUE,
+                                      skel |-> SkelOf(F0.inner[k], N, F0.case, k)])>>)
 =============================================================================
